@@ -1,4 +1,5 @@
 import Cfi.Files
+import Cfi.Stream
 import Spec.C01
 import Spec.C04
 import Spec.C09
@@ -87,27 +88,54 @@ def itemOk (st : Storage) (r : RegDef) (data : List Val) : Bool :=
 def inDomain (st : Storage) (items : List (RegDef × List Val)) : Bool :=
   items.all fun (r, d) => itemOk st r d
 
-/-- the model's run: write all registers to one buffer, then read them back in order -/
+/-- what `Register.write` puts on the buffer for every item (`none` if one of them
+writes nothing or raises) -/
+def writeAll (st : Storage) (items : List (RegDef × List Val)) : Option (List Data) :=
+  items.mapM fun (r, data) =>
+    match r.writeData st data with
+    | .ok (some w) => some w
+    | _ => none
+
+def textOf : Data → List Char
+  | .str s => s
+  | .bytes _ => []
+
+def bytesOf : Data → List UInt8
+  | .bytes b => b
+  | .str _ => []
+
+/-- `Register.read(file)` of every item in turn on a text buffer: one `readline()`
+each; the stream position afterwards is what `tell()` shows -/
+def readAllText : Nat → Stream Char → List (RegDef × List Val) → List Data → Option (List RegObs)
+  | _, _, [], _ => some []
+  | _, _, _ :: _, [] => none
+  | off, s, (r, _) :: is, w :: ws =>
+    let n := dataLen w
+    let (l, s') := s.readline '\n'
+    match (r.readDataText l).toOption, readAllText (off + n) s' is ws with
+    | some d, some rest => some (⟨w, off + n, r.matchesText (textOf w), d, s'.pos⟩ :: rest)
+    | _, _ => none
+
+/-- the same on a binary buffer: one `read(recordSize)` each -/
+def readAllBin : Nat → Stream UInt8 → List (RegDef × List Val) → List Data → Option (List RegObs)
+  | _, _, [], _ => some []
+  | _, _, _ :: _, [] => none
+  | off, s, (r, _) :: is, w :: ws =>
+    let n := dataLen w
+    let (b, s') := s.read r.recordSize
+    let m : Bool := match r.matchesBin (bytesOf w) with | .ok x => x | .error _ => false
+    match (r.readDataBin b).toOption, readAllBin (off + n) s' is ws with
+    | some d, some rest => some (⟨w, off + n, m, d, s'.pos⟩ :: rest)
+    | _, _ => none
+
+/-- the model's run: write all registers to one buffer, rewind, read them back in
+order from that buffer -/
 def run (st : Storage) (items : List (RegDef × List Val)) : Option (List RegObs) :=
-  let rec go (off : Nat) : List (RegDef × List Val) → Option (List RegObs)
-    | [] => some []
-    | (r, data) :: is =>
-      match r.writeData st data with
-      | .ok (some w) =>
-        let n := dataLen w
-        let m : Bool := match w with
-          | .str s => r.matchesText s
-          | .bytes b => (match r.matchesBin b with | .ok x => x | .error _ => false)
-        let rd : Option (List Val) := match w with
-          | .str s => (r.readDataText s).toOption
-          | .bytes b => (r.readDataBin (b.take r.recordSize)).toOption
-        let consumed := match w with
-          | .str _ => n
-          | .bytes _ => min n r.recordSize
-        match rd, go (off + n) is with
-        | some d, some rest => some (⟨w, off + n, m, d, off + consumed⟩ :: rest)
-        | _, _ => none
-      | _ => none
-  go 0 items
+  match writeAll st items with
+  | none => none
+  | some ws =>
+    match st with
+    | .text => readAllText 0 ⟨ws.flatMap textOf, 0⟩ items ws
+    | .binary => readAllBin 0 ⟨ws.flatMap bytesOf, 0⟩ items ws
 
 end Spec.C10
